@@ -17,16 +17,16 @@ let vec_of (s : string) =
 let rec int_of_nat = function Datatypes.O -> 0 | Datatypes.S n -> 1 + int_of_nat n
 
 let () =
-  Sx.iter_stdin (fun c ->
-    match Sx.list c with
+  Common.Sx.iter_stdin (fun c ->
+    match Common.Sx.list c with
     | [id; ef; v] ->
-        let id = Sx.atom id and ef = ef_of (Sx.atom ef) and v = vec_of (Sx.atom v) in
+        let id = Common.Sx.atom id and ef = ef_of (Common.Sx.atom ef) and v = vec_of (Common.Sx.atom v) in
         (* empty policy: the policy-free branch with the matcher `r.x == p.flag` on empty
            policy fields, i.e. "1" == "" = false *)
         let o = if v = [] then stream_nopolicy ef false else stream ef v in
         let ex = match o.explain with None -> -1 | Some j -> int_of_nat j in
         (* with an empty policy there is no rule to name *)
         let ex = if v = [] then -1 else ex in
-        Printf.printf "%s\tenforce\tdec=%s err=%s\n" id (Sx.b2s o.decision) (Sx.b2s o.failed);
-        Printf.printf "%s\tenforceex\tdec=%s err=%s ex=%d\n" id (Sx.b2s o.decision) (Sx.b2s o.failed) ex
+        Printf.printf "%s\tenforce\tdec=%s err=%s\n" id (Common.Sx.b2s o.decision) (Common.Sx.b2s o.failed);
+        Printf.printf "%s\tenforceex\tdec=%s err=%s ex=%d\n" id (Common.Sx.b2s o.decision) (Common.Sx.b2s o.failed) ex
     | _ -> failwith "bad case")
